@@ -79,7 +79,9 @@ func (c *TrackSetController) Add(op *TrackOp) {
 
 func (c *TrackSetController) Distribute(op *TrackOp) {
 	for i := range c.set.Len() {
-		c.set.Add(i, op)
+		// every track gets its own copy: Track.Add folds that track's pending delay into the op
+		x := *op
+		c.set.Get(i).Add(&x)
 	}
 }
 
